@@ -5,7 +5,7 @@
     every run by the fault-enumeration harness), [Eager] = every call is flushed.
     [is_prefix], [strict_prefix], [outcome_of], [disk_after], [safe_part] are defined in Proofs/C19.v. *)
 From Coq Require Import ZArith List Bool.
-From GV Require Import Model.Store Proofs.C12 Proofs.C19.
+From GV Require Import Model.Store Model.StoreOver Proofs.C12 Proofs.C19 Proofs.C19Over.
 Import ListNotations.
 Open Scope Z_scope.
 
@@ -48,3 +48,40 @@ Theorem C19_eager_whole : forall c junk done, unparsable junk = true -> strict_p
   exists e, load_file (crash_disk Eager junk done) = SErr e.
 Proof. exact C19_eager_whole_l. Qed.
 Print Assumptions C19_eager_whole.
+
+(** ---- the output path already holds a file (Model/StoreOver.v) ---------------------------------- *)
+
+(** the repository's writer opens the path with mode w (truncate): once it has opened the path, every
+    crash point of every write leaves a file that is refused, WHATEVER the path held before ([old]: a
+    complete signature file of another or of the same collection, a truncated one, any other file) *)
+Theorem C19_overwrite_truncate : forall old p c junk done, unparsable junk = true -> is_prefix done (dump_ops p c) ->
+  load_file (over_disk Truncate AtClose old junk true done) = SErr ESigFile /\
+  (load_file_cur (over_disk Truncate AtClose old junk true done) = SErr EOS \/
+   load_file_cur (over_disk Truncate AtClose old junk true done) = SErr EKey \/
+   load_file_cur (over_disk Truncate AtClose old junk true done) = SErr ESigFile).
+Proof. exact C19_overwrite_truncate_l. Qed.
+Print Assumptions C19_overwrite_truncate.
+
+(** ... and a file that loads after the writer opened the path comes from a completed write and is the
+    requested collection, never the old one *)
+Theorem C19_overwrite_complete : forall old p c junk o d l, wf_coll c = true -> unparsable junk = true -> outcome_of p c o ->
+  disk_after_over Truncate AtClose old junk p c o = SOk d ->
+  (load_file d = SOk l \/ load_file_cur d = SOk l) ->
+  o = Completed /\ l = loaded_of c /\ decode l = SOk c.(c_sigs).
+Proof. exact C19_overwrite_complete_l. Qed.
+Print Assumptions C19_overwrite_complete.
+
+(** an in-place writer (open r+ and rewrite the datasets) is NOT safe even under AtClose: over the complete
+    file of [old_coll], killed before the last per-signature write of [new_coll], it leaves a file that
+    loads with the new ids, the old metadata and a mixture of new and old signatures *)
+Theorem C19_overwrite_inplace_refuted :
+  exists done l,
+    wf_coll old_coll = true /\ wf_coll new_coll = true /\
+    load_file old_disk = SOk (loaded_of old_coll) /\
+    strict_prefix done (dump_ops PerSig new_coll) /\
+    load_file (over_disk InPlace AtClose old_disk (DRaw []) true done) = SOk l /\
+    l.(l_ids) = IdInts I64 [200; 201] /\ l.(l_meta) = old_coll.(c_meta) /\
+    decode l = SOk [[2; 6]; [7]] /\
+    l <> loaded_of new_coll /\ l <> loaded_of old_coll.
+Proof. exact C19_overwrite_inplace_refuted_l. Qed.
+Print Assumptions C19_overwrite_inplace_refuted.
